@@ -51,6 +51,7 @@ def check(ctx):
     r07_7(ctx, g)
     r07_8(ctx, g)
     r07_9(ctx, g)
+    r07_10(ctx, g)
     ctx.not_decided += [
         "file-level equality on every GFA (tags round-trip through a dict: a repeated tag name on one S line keeps the last value)",
         "uniqueness of component names in name_comps (two components with the same majority SN overwrite each other)",
@@ -433,3 +434,49 @@ def r07_9(ctx, g):
         ws = [pol for t, pol in gds if norm(t) == "with_sequence"]
         ok = ok and ws and lm == (not ws[0])
     ctx.check(ok, "R07.9", run.where(), "order_gfa keeps sequences exactly with --with-sequence (low_memory = not with_sequence)", key_of(run, "with-sequence"))
+
+
+def r07_10(ctx, g):
+    """S-line parsing: id = column 2, sequence = column 3 (or '' in low-memory mode), tags = columns 4..;
+    L-line overlap: read as int of all but the trailing letter, written back as str(overlap) + 'M'."""
+    from ..core import resolve_expr, local_defs
+
+    rg = g.read_graph
+    calls = [c for c in walk_own(rg.node) if isinstance(c, ast.Call) and isinstance(c.func, ast.Attribute) and c.func.attr == "add_node"]
+    ctx.require_count("R07.10", len(calls), 1, rg.where(), "add_node calls of the reader")
+    ld = local_defs(rg.node)
+    for c in calls:
+        a = [norm(x) for x in c.args]
+        seq_ok = False
+        fields = None
+        import re as _re
+
+        m0 = _re.fullmatch(r"(\w+)\[1\]", a[0]) if a else None
+        if m0 and len(a) == 3:
+            fields = m0.group(1)
+            # sequence argument: fields[2], or '' (low memory), possibly through a conditional temporary
+            seq_txts = set()
+            x = c.args[1]
+            if isinstance(x, ast.Name) and x.id in ld:
+                for d in ld[x.id]:
+                    if isinstance(d, ast.IfExp):
+                        seq_txts |= {norm(d.body), norm(d.orelse)}
+                    elif d is not None:
+                        seq_txts.add(norm(d))
+            else:
+                seq_txts.add(norm(x))
+            seq_ok = seq_txts <= {f"{fields}[2]", "''"} and a[2] == f"{fields}[3:]"
+        if m0 is None:
+            raise AnalysisError("R07.10", rg.where(c), "add_node arguments are not columns of the split S line")
+        ctx.check(seq_ok, "R07.10", rg.where(c), "an S line yields node id = column 2, sequence = column 3 (or '' in low-memory mode) and tags = all columns from the 4th on", key_of(rg, f"S-parse:{a}"), args=a)
+    seqs = {norm(c.args[1]) for c in calls}
+    # overlap round trip
+    ov_read = [st for st in walk_own(rg.node) if isinstance(st, ast.Assign) and isinstance(st.targets[0], ast.Subscript) and const_value(st.targets[0].slice) == 4 and norm(st.value).startswith("int(")]
+    ok_r = len(ov_read) == 1 and norm(ov_read[0].value) == f"int({norm(ov_read[0].targets[0])}[:-1])"
+    wf = g.write_gfa
+    ov_w = [st for st in walk_own(wf.node) if isinstance(st, ast.Assign) and norm(st.targets[0]) == "overlap"]
+    ok_w = len(ov_w) == 2 and all(_re.fullmatch(r"str\((\w+)\[2\]\) \+ 'M'", norm(st.value)) for st in ov_w)
+    ctx.check(ok_r and ok_w, "R07.10", wf.where(), "link overlaps round-trip: read as the integer before the trailing letter, written as str(overlap) + 'M' of the stored adjacency entry", key_of(wf, f"overlap:{[norm(s.value) for s in ov_read]}:{[norm(s.value) for s in ov_w]}"))
+    # record letters: the reader dispatches on 'S' and 'L' only
+    tests = sorted({const_value(c.args[0]) for c in walk_own(rg.node) if isinstance(c, ast.Call) and isinstance(c.func, ast.Attribute) and c.func.attr == "startswith" and c.args})
+    ctx.check(tests == ["L", "S"], "R07.10", rg.where(), "the reader takes S lines as segments and L lines as links", key_of(rg, f"letters:{tests}"))
